@@ -1,15 +1,17 @@
 // Command integrity executes IntegrityGen.tla cases (C39) against the real
 // integrity validator.
 //
-//	integrity run <stack> <workdir> <cases.ndjson> <trace.ndjson>
+//	integrity run <workdir> <cases.ndjson> <trace.ndjson>
 //
-// A case is {id, calls, corr, del}: a TLC-generated Pithos API program that
-// builds the objects, a corruption set over physical parts named by (part store,
-// content) and the deleteCorrupted flag.  Per case the driver
+// An input line is {id, calls, cases: {stack: [{corr, del}, ...]}}: a TLC-generated
+// Pithos API program that builds the objects and, per storage stack, corruption cases:
+// a set of physical parts named by (part store, content) with a damage kind, and the
+// deleteCorrupted flag.  Per program and stack the driver
 //  1. builds a fresh storage from storage/config JSON + its DbContainer exactly
 //     the way cmd/pithos.go (loadStorageConfiguration/validateStorage) does,
 //  2. executes the program through pdrv (every call is logged with its views and
 //     validated by TLC against Pithos.tla, so the built state is bound to the model),
+//     closes the storage and, per case, reopens a fresh COPY of the state directory,
 //  3. locates the part files whose bytes are the named content in the named
 //     filesystem part store and damages them (flip / truncate / extend / remove),
 //  4. runs integrity.NewValidator(storage, dbContainer, del, force=true).ValidateAll
@@ -51,11 +53,17 @@ type target struct {
 	Kind  string   `json:"kind"`
 }
 
+type corrCase struct {
+	Corr []target `json:"corr"`
+	Del  bool     `json:"del"`
+}
+
+// kase: one program and the corruption cases run on copies of the state it builds,
+// per stack.
 type kase struct {
-	ID    int         `json:"id"`
-	Calls []pdrv.Call `json:"calls"`
-	Corr  []target    `json:"corr"`
-	Del   bool        `json:"del"`
+	ID    int                   `json:"id"`
+	Calls []pdrv.Call           `json:"calls"`
+	Cases map[string][]corrCase `json:"cases"`
 }
 
 // storeDirs: directory of every filesystem part store of a stack, by the name
@@ -129,10 +137,10 @@ func symOf(bucket, key string, prog int) (string, string) {
 }
 
 func main() {
-	if len(os.Args) != 6 || os.Args[1] != "run" {
-		must(fmt.Errorf("usage: integrity run <stack> <workdir> <cases.ndjson> <trace.ndjson>"))
+	if len(os.Args) != 5 || os.Args[1] != "run" {
+		must(fmt.Errorf("usage: integrity run <workdir> <cases.ndjson> <trace.ndjson>"))
 	}
-	stack, work, in, out := os.Args[2], os.Args[3], os.Args[4], os.Args[5]
+	work, in, out := os.Args[2], os.Args[3], os.Args[4]
 	slog.SetDefault(slog.New(slog.NewTextHandler(io.Discard, nil)))
 	f, err := os.Open(in)
 	must(err)
@@ -140,24 +148,71 @@ func main() {
 	must(err)
 	sc := bufio.NewScanner(f)
 	sc.Buffer(make([]byte, 1<<24), 1<<24)
-	n := 0
+	n, nc := 0, 0
 	for sc.Scan() {
 		var k kase
 		must(json.Unmarshal(sc.Bytes(), &k))
-		runCase(stack, filepath.Join(work, fmt.Sprintf("case-%d", k.ID)), k, w)
-		n++
+		stacksOf := []string{}
+		for st := range k.Cases {
+			stacksOf = append(stacksOf, st)
+		}
+		sort.Strings(stacksOf)
+		for i, st := range stacksOf {
+			// one trace program per (program, stack): distinct prog ids = distinct bucket names
+			nc += runProgram(st, filepath.Join(work, fmt.Sprintf("prog-%d-%s", k.ID, st)), k.ID*10+i, k.Calls, k.Cases[st], w)
+			n++
+		}
 	}
 	must(sc.Err())
 	must(w.Close())
-	fmt.Printf("cases=%d events=%d\n", n, w.Count())
+	fmt.Printf("programs=%d cases=%d events=%d\n", n, nc, w.Count())
 }
 
-func runCase(stack, dir string, k kase, w *vtrace.Writer) {
-	ctx := context.Background()
+func copyDir(src, dst string) error {
+	return filepath.Walk(src, func(p string, info os.FileInfo, err error) error {
+		if err != nil {
+			return err
+		}
+		rel, _ := filepath.Rel(src, p)
+		t := filepath.Join(dst, rel)
+		if info.IsDir() {
+			return os.MkdirAll(t, 0o755)
+		}
+		data, err := os.ReadFile(p)
+		if err != nil {
+			return err
+		}
+		return os.WriteFile(t, data, 0o600)
+	})
+}
+
+// runProgram builds the state once (logged call by call), closes the storage, and runs
+// every corruption case on a fresh copy of the state directory.
+func runProgram(stack, dir string, prog int, calls []pdrv.Call, cases []corrCase, w *vtrace.Writer) int {
 	b, err := stacks.Open(stack, dir) // storage/config JSON -> storage + DbContainer, started (as cmd/pithos.go)
 	must(err)
 	it := &pdrv.Interp{St: b.Storage, W: w, Buckets: []string{"b1", "b2"}, Keys: []string{"k1", "k2"}}
-	it.Run(pdrv.Program{ID: k.ID, Calls: k.Calls})
+	// fields PithosTrace.tla expects on every call event (no placement observation here)
+	it.Hook = func(ev map[string]any) { ev["placement"] = []any{}; ev["placed"] = false }
+	it.Run(pdrv.Program{ID: prog, Calls: calls})
+	ids := it.SaveIDs()
+	b.Close()
+	for i, c := range cases {
+		cdir := fmt.Sprintf("%s-case%d", dir, i+1)
+		must(copyDir(dir, cdir))
+		it.RestoreIDs(ids)
+		runCase(stack, cdir, prog, i+1, c, it, w)
+		must(os.RemoveAll(cdir))
+	}
+	must(os.RemoveAll(dir))
+	return len(cases)
+}
+
+func runCase(stack, dir string, prog, cno int, k corrCase, it *pdrv.Interp, w *vtrace.Writer) {
+	ctx := context.Background()
+	b, err := stacks.Open(stack, dir)
+	must(err)
+	it.St = b.Storage
 
 	// ---- corrupt
 	dirs := storeDirs(stack, dir)
@@ -165,7 +220,7 @@ func runCase(stack, dir string, k kase, w *vtrace.Writer) {
 	for _, t := range k.Corr {
 		sd, ok := dirs[t.Store]
 		if !ok {
-			must(fmt.Errorf("case %d: unknown store %q", k.ID, t.Store))
+			must(fmt.Errorf("program %d: unknown store %q", prog, t.Store))
 		}
 		want := contentBytes(t.C)
 		nfiles := 0
@@ -183,7 +238,7 @@ func runCase(stack, dir string, k kase, w *vtrace.Writer) {
 		}
 		applied = append(applied, map[string]any{"store": t.Store, "c": c, "kind": t.Kind, "nfiles": nfiles})
 	}
-	w.Emit(map[string]any{"call": map[string]any{"op": "Corrupt", "stack": stack}, "prog": k.ID, "corr": applied})
+	w.Emit(map[string]any{"call": map[string]any{"op": "Corrupt", "stack": stack}, "prog": prog, "case": cno, "corr": applied})
 
 	// ---- validate, constructed as cmd/pithos.go validateStorage does
 	validator := integrity.NewValidator(b.Storage, b.DB, k.Del, true)
@@ -195,7 +250,7 @@ func runCase(stack, dir string, k kase, w *vtrace.Writer) {
 		counts = map[string]any{"total": report.TotalObjects, "ok": report.SuccessfulObjects, "failed": report.FailedObjects,
 			"deleted": report.DeletedObjects, "buckets": report.TotalBuckets}
 		for _, r := range report.Results {
-			bs, ks := symOf(r.BucketName, r.ObjectKey, k.ID)
+			bs, ks := symOf(r.BucketName, r.ObjectKey, prog)
 			o := []string{bs, ks}
 			if r.Success {
 				passed = append(passed, o)
@@ -216,9 +271,8 @@ func runCase(stack, dir string, k kase, w *vtrace.Writer) {
 			}
 		}
 	}
-	w.Emit(map[string]any{"call": map[string]any{"op": "Validate", "stack": stack, "del": k.Del}, "prog": k.ID,
+	w.Emit(map[string]any{"call": map[string]any{"op": "Validate", "stack": stack, "del": k.Del}, "prog": prog, "case": cno,
 		"err": errClass(verr), "failed": failed, "passed": passed, "deleted": deleted, "otheractions": other,
 		"counts": counts, "detail": detail, "views": it.Views(b.Storage)})
 	b.Close()
-	must(os.RemoveAll(dir))
 }
